@@ -120,7 +120,12 @@ func (s *store) peers() []string {
 	if s.raftState == nil {
 		return nil
 	}
-	if s.leader() == "" {
+	// Not s.leader(): it takes the read lock again, and a writer queued in
+	// between (storeFSM.Apply) blocks the second acquisition for ever.
+	if s.raftState.raft == nil {
+		return nil
+	}
+	if l, _ := s.raftState.raft.LeaderWithID(); l == "" {
 		return nil
 	}
 	peers, err := s.raftState.peers()
